@@ -359,13 +359,22 @@ func c18schedBody() {
 			break
 		}
 	}
-	// (node 1, 0), (node 1, 5), (node 2, 0) = past the last node, which the next call answers with the terminating 0
-	want := []string{"281474976710656", "281474976710661", "562949953421312", "0"}
-	if strings.Join(cursors, ",") != strings.Join(want, ",") {
-		sched.Fail("cursor-given-to-client-does-not-encode-node / schedules", fmt.Sprintf("the client received cursors %v, expected %v (keys seen %d of 3)", cursors, want, len(got)))
+	// the statement fixes what the iteration achieves, not how many calls it takes: it must end with cursor 0,
+	// return every key, and give every node its own cursor chain exactly once, in order
+	if len(cursors) == 0 || cursors[len(cursors)-1] != "0" {
+		sched.Fail("iteration-does-not-terminate / schedules", fmt.Sprintf("cursors handed to the client: %v", cursors))
 	}
 	if len(got) != 3 {
-		sched.Fail("keys-never-returned / schedules", fmt.Sprintf("keys seen %v", got))
+		sched.Fail("keys-never-returned / schedules", fmt.Sprintf("keys seen %v, cursors handed to the client %v", got, cursors))
+	}
+	perNode := map[string][]string{}
+	for _, e := range cl.Log {
+		if strings.EqualFold(e.Args[0], "scan") {
+			perNode[e.Node] = append(perNode[e.Node], e.Args[1])
+		}
+	}
+	if strings.Join(perNode["m0"], ",") != "0" || strings.Join(perNode["m1"], ",") != "0,5" {
+		sched.Fail("node-cursor-sequence-differs / schedules", fmt.Sprintf("node m0 received cursors %v (its chain: [0]), node m1 %v (its chain: [0 5]); cursors handed to the client %v", perNode["m0"], perNode["m1"], cursors))
 	}
 	sched.SetOutcome("ok")
 }
